@@ -86,7 +86,19 @@ func tid(s string) (uint64, uint64) {
 	return pu(p[0]), pu(p[1])
 }
 
-func isNullAddr(a string) bool { return strings.Trim(strings.TrimPrefix(a, "0x"), "0") == "" }
+// isNullAddr: a recipient nobody can be paid at - the zero address, or one of the module accounts the histories can name (the bank
+// keeps module accounts from receiving funds; such a recipient is left out like the zero address)
+func isNullAddr(a string) bool {
+	if strings.Trim(strings.TrimPrefix(a, "0x"), "0") == "" {
+		return true
+	}
+	for tok := range moduleName {
+		if strings.EqualFold(hexOfAcct(tok), a) {
+			return true
+		}
+	}
+	return false
+}
 
 // shares computes the payout of a record the way the property states it.
 func shares(u *Utxr) (map[string]*big.Int, *big.Int, bool) {
@@ -132,7 +144,8 @@ func hasAcct(list []string, tok string) bool {
 	return false
 }
 
-func validAcctTok(tok string) bool { return tok != "bad" && tok != "empty" }
+// an account token names an account unless it is one of the malformed spellings (not bech32, empty, white space around an address)
+func validAcctTok(tok string) bool { return tok != "bad" && tok != "empty" && !strings.HasPrefix(tok, "p") }
 
 // ---------- C01 ----------
 
@@ -1168,7 +1181,9 @@ func monC12(tr *Trace, br map[string]int) (out []Violation) {
 			p := strings.SplitN(k, "|", 2)
 			u := s.Utxr(pu(p[0]), id)
 			if u == nil {
-				continue // the lookup double-checks the record store: not visible to queries
+				// the by-request-id index names a record that is not pending: index and list describe different sets
+				out = append(out, viol("C12", "index-entry-without-record", c.i, "the request-id index of tenant %s holds %q -> %d, and no such record is pending", p[0], p[1], id))
+				continue
 			}
 			if u.Req != p[1] {
 				out = append(out, viol("C12", "lookup-wrong-record", c.i, "lookup of %s returns record %d with request id %s", k, id, u.Req))
